@@ -1,5 +1,355 @@
-// placeholder (replaced below)
-fn oracle_case(_c: &Case, _fails: &mut Vec<String>, _stats: &mut BTreeMap<String, u64>) {}
-fn oracle_main(_seed: u64, _n: usize, _tier: &str, out: &mut dyn Write) {
-    writeln!(out, "STATS {{\"cases\":0}}").unwrap();
+// Implementation-side oracle for C17 (included by h_tcp.rs): an independent Rust transcription of
+// the relation `allowed` of coq/Proofs/TcpStateProofs.v, evaluated on every observed transition
+// of the REAL socket along generated walks.  Everything it uses is observable from outside the
+// socket: state(), recv_queue(), the bytes returned by recv, the frames emitted, the segments
+// injected, the ISNs learned by observation (case header) and the time.
+//
+// FAIL classes (stable slugs):
+//   st-illegal-edge            a state change that is no edge of the RFC 793/9293 diagram for that event kind
+//   st-established-wrong-ack   ESTABLISHED entered by a segment whose ACK is not ISS+1
+//   st-fin-out-of-order        CLOSE-WAIT / CLOSING / TIME-WAIT entered through a FIN that is not in sequence
+//   st-finack-mismatch         FIN-WAIT-2 / TIME-WAIT / CLOSED(from LAST-ACK) without ACK = own FIN + 1
+//   st-rst-not-acceptable      connection reset by an RST outside the receive window / not the expected handshake RST
+//   st-timewait-early          TIME-WAIT left by a poll earlier than 10 s after it was (re)entered
+//   st-timewait-late           still TIME-WAIT after a complete poll at or after the 10 s deadline
+//   st-closed-by-poll          a poll closed a connection with no timeout configured and not from TIME-WAIT
+
+const CLOSE_DELAY_MS: i64 = 10_000; // "TIME-WAIT ends by itself after 10 s" (property text)
+
+/// every branch tag the model can report (coverage denominator)
+fn all_tags() -> Vec<u32> {
+    let mut v: Vec<u32> = vec![];
+    v.extend(100..=116);
+    v.extend([121, 123, 126, 128]);
+    for t in [120, 122, 124, 125, 127] {
+        v.extend([t + 1000, t + 2000, t + 3000]);
+    }
+    v.extend(140..=162);
+    v.extend(170..=173);
+    v.extend(180..=188);
+    v.extend(190..=191);
+    for t in 192..=197 {
+        v.extend([t, t + 10000]);
+    }
+    v.extend(200..=206);
+    v.extend(210..=217);
+    v.extend([220, 222, 223, 224, 225, 226, 227]);
+    v.extend(240..=246);
+    v.extend(300..=303);
+    // not reachable through this stream: 104+Some (panic arm), 221 (LISTEN has no tuple),
+    // 300/301 (unspecified address / port 0: the frame builder never produces them)
+    v.retain(|t| ![221, 300, 301].contains(t));
+    v
+}
+
+struct Conn {
+    iss: Option<u32>,
+    irs: Option<u32>,
+    consumed: u64,
+    sent: u64,
+    fin_rcvd: bool,
+    listener: bool,
+}
+
+fn oracle_case(c: &Case, fails: &mut Vec<String>, stats: &mut BTreeMap<String, u64>) {
+    let cfg = Cfg::from_case(c);
+    let mut sim = Sim::new(&cfg);
+    let mut isns = cfg.isns.clone();
+    let mut conn = Conn { iss: None, irs: None, consumed: 0, sent: 0, fin_rcvd: false, listener: false };
+    let mut timeout: Option<i64> = None;
+    let mut tw_enter: i64 = 0; // time TIME-WAIT was entered: the timer never expires before this + 10 s
+    let mut tw_since: i64 = 0; // time of the last event that may have refreshed it (upper bound)
+    let mut pre = sim.state();
+    let mut pre_rq = 0usize;
+    use tcp::State as S;
+    for (k, op) in c.ops.iter().enumerate() {
+        let toks: Vec<&str> = op.split_whitespace().collect();
+        let st = sim.step(op);
+        if st.panicked {
+            *stats.entry("impl_panics".into()).or_default() += 1;
+            return;
+        }
+        if st.livelock {
+            *stats.entry("poll_livelocks".into()).or_default() += 1;
+            return;
+        }
+        let post = sim.state();
+        let post_rq = sim.sock().recv_queue();
+        let now = sim.now_ms;
+        let mut fail = |class: &str, why: String| {
+            fails.push(format!("{} :: case {} op#{} `{}`: {:?} -> {:?}: {}", class, c.id, k, op, pre, post, why));
+        };
+        *stats.entry(format!("edge_{}>{}", state_name(pre), state_name(post))).or_default() += (pre != post) as u64;
+        match toks[0] {
+            "listen" => {
+                if st.ret == "ok" && !(pre == S::Listen) {
+                    conn = Conn { iss: None, irs: None, consumed: 0, sent: 0, fin_rcvd: false, listener: true };
+                }
+                let ok = pre == post || (matches!(pre, S::Closed | S::TimeWait) && post == S::Listen);
+                if !ok {
+                    fail("st-illegal-edge", "listen".into());
+                }
+            }
+            "connect" => {
+                if st.ret == "ok" {
+                    let iss = if isns.is_empty() { None } else { Some(isns.remove(0)) };
+                    conn = Conn { iss, irs: None, consumed: 0, sent: 0, fin_rcvd: false, listener: false };
+                }
+                let ok = pre == post || (matches!(pre, S::Closed | S::TimeWait) && post == S::SynSent);
+                if !ok {
+                    fail("st-illegal-edge", "connect".into());
+                }
+            }
+            "close" => {
+                let ok = pre == post
+                    || matches!(
+                        (pre, post),
+                        (S::Listen, S::Closed) | (S::SynSent, S::Closed) | (S::SynReceived, S::FinWait1) | (S::Established, S::FinWait1) | (S::CloseWait, S::LastAck)
+                    );
+                if !ok {
+                    fail("st-illegal-edge", "close".into());
+                }
+            }
+            "abort" => {
+                if post != S::Closed {
+                    fail("st-illegal-edge", "abort must end in CLOSED".into());
+                }
+            }
+            "send" => {
+                if let Ok(n) = st.ret.parse::<u64>() {
+                    conn.sent += n;
+                }
+                if pre != post {
+                    fail("st-illegal-edge", "send changed the state".into());
+                }
+            }
+            "recv" => {
+                conn.consumed += st.data.len() as u64;
+                if pre != post {
+                    fail("st-illegal-edge", "recv changed the state".into());
+                }
+            }
+            "peek" | "peekc" | "set" => {
+                if let Some(v) = kv(&toks, "timeout") {
+                    timeout = opt_i(Some(v));
+                }
+                if pre != post {
+                    fail("st-illegal-edge", "state changed by a call that must not".into());
+                }
+            }
+            "seg" => {
+                let fl = kv(&toks, "fl").unwrap_or("-");
+                let seq = opt_i(kv(&toks, "seq")).unwrap_or(0) as u32;
+                let ack = opt_i(kv(&toks, "ack")).map(|a| a as u32);
+                let len = opt_i(kv(&toks, "len")).unwrap_or(0);
+                let (syn, fin, rst) = (fl.contains('S'), fl.contains('F'), fl.contains('R'));
+                let one_ctl = (syn as u8 + fin as u8 + rst as u8) <= 1;
+                if pre == S::Listen && post == S::SynReceived {
+                    conn.iss = if isns.is_empty() { None } else { Some(isns.remove(0)) };
+                    conn.irs = Some(seq);
+                }
+                if pre == S::SynSent && matches!(post, S::Established | S::SynReceived) {
+                    conn.irs = Some(seq);
+                }
+                // receiver quantities seen from outside
+                let rcv_nxt_pre = conn.irs.map(|i| wadd(i, 1 + conn.consumed as i64 + pre_rq as i64 + conn.fin_rcvd as i64));
+                let iss1 = conn.iss.map(|i| wadd(i, 1));
+                let fin_ack = conn.iss.map(|i| wadd(i, 1 + conn.sent as i64 + 1));
+                let acks_iss = ack.is_some() && ack == iss1;
+                let acks_fin = ack.is_some() && ack == fin_ack;
+                let fin_seq = wadd(seq, len);
+                let fin_in_order = fin
+                    && one_ctl
+                    && rcv_nxt_pre.map_or(false, |rn| {
+                        let need = sdiff(fin_seq, rn); // octets still missing in front of the FIN
+                        sdiff(seq, rn) <= 0 && need >= 0 && (post_rq as i64 - pre_rq as i64) >= need && need <= sim.rx_cap as i64 - pre_rq as i64
+                    });
+                let rst_acceptable = rst
+                    && one_ctl
+                    && rcv_nxt_pre.map_or(false, |rn| {
+                        // RFC 9293 segment acceptability test (3.10.7.4, the `segment_in_window` the property
+                        // anchors in), with the largest window this socket can ever advertise (its capacity):
+                        // the first or, for a segment with data, the last octet lies in the window
+                        let d = sdiff(seq, rn);
+                        let e = sdiff(wadd(seq, len - 1), rn);
+                        (d >= 0 && d <= sim.rx_cap as i64) || (len > 0 && e >= 0 && e <= sim.rx_cap as i64)
+                    });
+                if pre != post {
+                    match (pre, post) {
+                        (S::Listen, S::SynReceived) => {
+                            if !(syn && one_ctl && ack.is_none()) {
+                                fail("st-illegal-edge", "LISTEN left without a plain SYN".into());
+                            }
+                        }
+                        (S::SynSent, S::Established) => {
+                            if !(syn && one_ctl) {
+                                fail("st-illegal-edge", "SYN-SENT -> ESTABLISHED without SYN".into());
+                            } else if !acks_iss {
+                                fail("st-established-wrong-ack", format!("ack {:?} iss+1 {:?}", ack, iss1));
+                            }
+                        }
+                        (S::SynSent, S::SynReceived) => {
+                            if !(syn && one_ctl && ack.is_none()) {
+                                fail("st-illegal-edge", "simultaneous open needs SYN without ACK".into());
+                            }
+                        }
+                        (S::SynSent, S::Closed) => {
+                            if !(rst && one_ctl && acks_iss) {
+                                fail("st-rst-not-acceptable", format!("handshake RST ack {:?} iss+1 {:?}", ack, iss1));
+                            }
+                        }
+                        (S::SynReceived, S::Established) => {
+                            if syn || rst {
+                                fail("st-illegal-edge", "SYN-RECEIVED -> ESTABLISHED by a SYN or RST segment".into());
+                            } else if !acks_iss {
+                                fail("st-established-wrong-ack", format!("ack {:?} iss+1 {:?}", ack, iss1));
+                            }
+                        }
+                        (S::SynReceived, S::CloseWait) => {
+                            if !acks_iss {
+                                fail("st-established-wrong-ack", format!("ack {:?} iss+1 {:?}", ack, iss1));
+                            } else if !fin_in_order {
+                                fail("st-fin-out-of-order", format!("seq {} len {} rcv_nxt {:?} rq {}->{}", seq, len, rcv_nxt_pre, pre_rq, post_rq));
+                            }
+                        }
+                        (S::SynReceived, S::Listen) => {
+                            if !(rst_acceptable && conn.listener) {
+                                fail("st-rst-not-acceptable", format!("seq {} rcv_nxt {:?} listener {}", seq, rcv_nxt_pre, conn.listener));
+                            }
+                        }
+                        (S::Established, S::CloseWait) | (S::FinWait1, S::Closing) | (S::FinWait2, S::TimeWait) => {
+                            if !fin_in_order {
+                                fail("st-fin-out-of-order", format!("seq {} len {} rcv_nxt {:?} rq {}->{}", seq, len, rcv_nxt_pre, pre_rq, post_rq));
+                            }
+                        }
+                        (S::FinWait1, S::FinWait2) | (S::Closing, S::TimeWait) | (S::LastAck, S::Closed) if !rst => {
+                            if !acks_fin {
+                                fail("st-finack-mismatch", format!("ack {:?} fin+1 {:?}", ack, fin_ack));
+                            }
+                        }
+                        (S::FinWait1, S::TimeWait) => {
+                            if !fin_in_order {
+                                fail("st-fin-out-of-order", format!("seq {} len {} rcv_nxt {:?}", seq, len, rcv_nxt_pre));
+                            } else if !acks_fin {
+                                fail("st-finack-mismatch", format!("ack {:?} fin+1 {:?}", ack, fin_ack));
+                            }
+                        }
+                        (_, S::Closed) if !matches!(pre, S::Listen | S::SynSent) => {
+                            if !rst_acceptable {
+                                fail("st-rst-not-acceptable", format!("seq {} rcv_nxt {:?} cap {}", seq, rcv_nxt_pre, sim.rx_cap));
+                            }
+                        }
+                        _ => fail("st-illegal-edge", "no such edge for a segment".into()),
+                    }
+                    if matches!(post, S::CloseWait | S::Closing | S::TimeWait) && !conn.fin_rcvd && fin {
+                        conn.fin_rcvd = true;
+                    }
+                }
+                if post == S::TimeWait {
+                    tw_since = now; // entered, or possibly refreshed by this segment
+                }
+                *stats.entry("segments".into()).or_default() += 1;
+            }
+            "poll" => {
+                let limited = kv(&toks, "b").map_or(false, |b| b != "-");
+                if pre != post {
+                    if post != S::Closed {
+                        fail("st-illegal-edge", "a poll may only move to CLOSED".into());
+                    } else if pre == S::TimeWait {
+                        if now < tw_enter + CLOSE_DELAY_MS && timeout.is_none() {
+                            fail("st-timewait-early", format!("now {} entered {}", now, tw_enter));
+                        }
+                    } else if timeout.is_none() {
+                        fail("st-closed-by-poll", "no timeout configured".into());
+                    }
+                } else if pre == S::TimeWait && !limited && now >= tw_since + CLOSE_DELAY_MS {
+                    fail("st-timewait-late", format!("now {} entered/refreshed {}", now, tw_since));
+                }
+                *stats.entry("polls".into()).or_default() += 1;
+            }
+            _ => {}
+        }
+        if pre != post {
+            *stats.entry("transitions".into()).or_default() += 1;
+            if post == S::TimeWait {
+                tw_since = now;
+                tw_enter = now;
+            }
+        }
+        *stats.entry("events".into()).or_default() += 1;
+        pre = post;
+        pre_rq = post_rq;
+    }
+}
+
+fn oracle_main(seed: u64, n: usize, tier: &str, out: &mut dyn Write) {
+    let mut rng = Rng::new(seed ^ 0x7C17);
+    let mut fails = vec![];
+    let mut stats: BTreeMap<String, u64> = BTreeMap::new();
+    let mut gstats = BTreeMap::new();
+    let mut cases = vec![];
+    for i in 0..n {
+        cases.push(gen_case(&mut rng, format!("o{}-{}", seed, i), tier, &mut gstats));
+    }
+    for c in &cases {
+        let before = fails.len();
+        oracle_case(c, &mut fails, &mut stats);
+        if fails.len() > before {
+            writeln!(out, "FAILCASE").unwrap();
+            c.write(out);
+        }
+        if fails.len() > 20 {
+            break;
+        }
+    }
+    // branch coverage of the model on these very cases: ask the extracted model (drv_tcp cov)
+    let mut cov: BTreeMap<u32, u64> = BTreeMap::new();
+    let drv = std::env::current_exe().ok().and_then(|p| Some(p.parent()?.parent()?.parent()?.parent()?.join("ocaml/bin/drv_tcp")));
+    if let Some(drv) = drv.filter(|p| p.exists()) {
+        let mut text = vec![];
+        for c in &cases {
+            c.write(&mut text);
+        }
+        if let Ok(mut ch) = std::process::Command::new(&drv).arg("cov").stdin(std::process::Stdio::piped()).stdout(std::process::Stdio::piped()).spawn() {
+            let mut stdin = ch.stdin.take().unwrap();
+            let h = std::thread::spawn(move || {
+                let _ = stdin.write_all(&text);
+            });
+            if let Ok(o) = ch.wait_with_output() {
+                for l in String::from_utf8_lossy(&o.stdout).lines() {
+                    if let Some(r) = l.strip_prefix("COV ") {
+                        for kvp in r.split_whitespace() {
+                            if let Some((a, b)) = kvp.split_once(':') {
+                                cov.insert(a.parse().unwrap_or(0), b.parse().unwrap_or(0));
+                            }
+                        }
+                    }
+                }
+            }
+            let _ = h.join();
+        }
+    }
+    for f in &fails {
+        writeln!(out, "FAIL {}", f).unwrap();
+    }
+    let mut st: Vec<String> = stats.iter().map(|(k, v)| format!("{}:{}", jstr(k), v)).collect();
+    let all = all_tags();
+    for t in &all {
+        st.push(format!("\"tag_{}\":{}", t, cov.get(t).cloned().unwrap_or(0)));
+    }
+    for (t, v) in &cov {
+        if !all.contains(t) {
+            st.push(format!("\"tag_{}\":{}", t, v));
+        }
+    }
+    let hit = all.iter().filter(|t| cov.get(t).cloned().unwrap_or(0) > 0).count();
+    writeln!(
+        out,
+        "STATS {{\"cases\":{},\"branch_tags_defined\":\"{}\",\"branch_tags_hit_this_shard\":\"{}\",{}}}",
+        cases.len(),
+        all.len(),
+        hit,
+        st.join(",")
+    )
+    .unwrap();
 }
